@@ -923,9 +923,9 @@ func main() {
 		return
 	}
 	g := &gen{r: vx.NewRand(run.Seed), run: run}
-	nCases, nOps := 2400, 30
+	nCases, nOps := 5000, 30
 	if run.Thorough() {
-		nCases, nOps = 12000, 60
+		nCases, nOps = 40000, 60
 	}
 	modes := []string{"us-art", "us-rbt", "txn"}
 	for n := 0; n < nCases; n++ {
